@@ -232,7 +232,9 @@ def many_batches_case(seed, i):
     """more batches than the stream's buffer holds (1000): one injected partition per key, each flushing its own partial batch, and a
     consumer that starts reading late - the buffer is full when the scan ends. The terminator is still there, exactly one, last."""
     r = rng_for(seed, "c13mb/%d" % i)
-    n = r.randint(1050, 1200)
+    # (exactly as many batches as the buffer holds: the scan ends without ever blocking, with the buffer FULL, and the terminator
+    # has to wait for the consumer; and more than that)
+    n = [1000, 1000, r.randint(1001, 1200), 999][i % 4]
     pfx = PREFIX + b"/mb/"
     borders = [enc(pfx + (b"%05d" % j), 0) for j in range(1, n)]
     lines = [hist.cfg_line("memkv", splits=",".join(hx(b) for b in borders)), "bulk %d %s %s" % (n, hx(pfx), hx(b"v")), "settle", "rev"]
